@@ -246,15 +246,23 @@ class Dumps(ProductSystem):
         ax = {"wrap": [10] + [w for w in range(1, ml + 2) if w != 10],
               "sign": SIGNS, "tail": ["own", "inline"]}
         if not self.full:
-            ax.update({"ids": IDS, "dens": DENS, "orph": ORPH, "mag": MAG, "eol": ["\n", "\r\n"], "k": [2, 0, 5], "origin": [None, "tiny", "huge"]})
+            ax.update({"ids": IDS, "dens": DENS, "orph": ORPH, "mag": MAG, "eol": ["\n", "\r\n"], "k": [2, 0, 5], "origin": [None, "tiny", "huge"],
+                       "forder": ["asbuilt", "reversed", "sorted", "faces_reversed"]})     # order of the records inside each section of the file
         else:
             ax.update({"ids": IDS[:2]})
         return ax
 
     def eval_config(self, base, cfg):
-        cfg = dict({"ids": ["seq"], "dens": ["all"], "orph": "none", "mag": 1.0, "eol": "\n", "k": 2, "origin": None}, **cfg)
+        cfg = dict({"ids": ["seq"], "dens": ["all"], "orph": "none", "mag": 1.0, "eol": "\n", "k": 2, "origin": None, "forder": "asbuilt"}, **cfg)
         at = self.abstract(base)
         vertices, edges, faces, bodies, xv, xe, expect = generate(at, cfg)
+        if cfg["forder"] == "reversed":
+            vertices, edges, faces, bodies = list(vertices)[::-1], list(edges)[::-1], list(faces)[::-1], list(bodies)[::-1]
+        elif cfg["forder"] == "sorted":
+            vertices, edges, faces, bodies = (sorted(vertices, key=lambda r: r[0]), sorted(edges, key=lambda r: r[0]),
+                                              sorted(faces, key=lambda r: r[0]), sorted(bodies, key=lambda r: r[0]))
+        elif cfg["forder"] == "faces_reversed":
+            faces, bodies = list(faces)[::-1], list(bodies)[::-1]
         path = os.path.join(tmpdir(), "d_%d_%s.dmp" % (os.getpid(), fsutil.state_hash([base, cfg])))
         sedump.write_dump(path, vertices, edges, faces, bodies, wrap=cfg["wrap"], tail=cfg["tail"], eol=cfg["eol"], extra_vertices=xv, extra_edges=xe)
         tags, known = [], []
